@@ -269,6 +269,16 @@ func (e *c07CExp) Text(top bool) string {
 			parts[i] = e.MK[i] + ":" + x.Text(true)
 		}
 		return "{" + strings.Join(parts, ",") + "}"
+	case "mapmul":
+		return e.A.Text(false) + ".map(x->x*" + c07LitText(c07TInt(e.I)) + ")"
+	case "topn":
+		return fmt.Sprintf("%s.top(%d)", e.A.Text(false), e.I)
+	case "skipn":
+		return fmt.Sprintf("%s.skip(%d)", e.A.Text(false), e.I)
+	case "acceptgt":
+		return e.A.Text(false) + ".accept(x->x>" + c07LitText(c07TInt(e.I)) + ")"
+	case "combineadd":
+		return e.A.Text(false) + ".combine((x,y)->x+y)"
 	}
 	panic("cexp kind " + e.K)
 }
@@ -313,6 +323,16 @@ func (e *c07CExp) Coq() string {
 			parts[i] = "(" + CoqStr(e.MK[i]) + ", " + x.Coq() + ")"
 		}
 		return "CMap " + CoqList(parts)
+	case "mapmul":
+		return "CMapMul (" + e.A.Coq() + ") " + c07CoqZ(int64(e.I))
+	case "topn":
+		return "CTopN (" + e.A.Coq() + ") " + c07CoqZ(int64(e.I))
+	case "skipn":
+		return "CSkipN (" + e.A.Coq() + ") " + c07CoqZ(int64(e.I))
+	case "acceptgt":
+		return "CAcceptGt (" + e.A.Coq() + ") " + c07CoqZ(int64(e.I))
+	case "combineadd":
+		return "CCombineAdd (" + e.A.Coq() + ")"
 	}
 	panic("cexp kind " + e.K)
 }
@@ -328,9 +348,15 @@ func c07CThrow() *c07CExp                      { return &c07CExp{K: "throw"} }
 // ---------- pipelines ----------
 
 type c07Arg struct {
-	V    *Tree    `json:"v,omitempty"`
-	N    int      `json:"n,omitempty"` // arity of the callback
-	Body *c07CExp `json:"body,omitempty"`
+	V    *Tree      `json:"v,omitempty"`
+	N    int        `json:"n,omitempty"` // arity of the callback
+	Body *c07CExp   `json:"body,omitempty"`
+	FM   []c07FMEnt `json:"fm,omitempty"` // a map literal of one-parameter functions
+}
+
+type c07FMEnt struct {
+	Key  string   `json:"key"`
+	Body *c07CExp `json:"body"`
 }
 
 type c07Step struct {
@@ -354,7 +380,7 @@ func init() {
 	for _, n := range strings.Fields(`accept map reduce sum mapReduce mean min max minMax combine combine3 combineN indexWhere
  groupByString groupByInt groupByEqual uniqueString uniqueInt compact cross merge order orderRev orderLess reverse append
  iir iirCombine visit fsm top skip number present set size first single last eval movingWindow movingWindowRemove
- len string trim toLower toUpper contains indexOf split cut replace toInt get put isAvail list`) {
+ len string trim toLower toUpper contains indexOf split cut replace toInt get put isAvail list multiUse`) {
 		c07ModelledMeths[n] = true
 	}
 }
@@ -385,6 +411,13 @@ func (c *C07Case) Program() (string, []string, []value.Value) {
 		return n
 	}
 	argText := func(a c07Arg) string {
+		if a.FM != nil {
+			parts := make([]string, len(a.FM))
+			for i, e := range a.FM {
+				parts[i] = e.Key + ":a->" + e.Body.Text(true)
+			}
+			return "{" + strings.Join(parts, ",") + "}"
+		}
 		if a.Body != nil {
 			ps := strings.Join(c07ParamNames[:a.N], ",")
 			if a.N != 1 {
@@ -479,7 +512,13 @@ func (c *C07Case) Coq(id int, obs string) string {
 	for i, s := range c.Steps {
 		args := make([]string, len(s.Args))
 		for j, a := range s.Args {
-			if a.Body != nil {
+			if a.FM != nil {
+				parts := make([]string, len(a.FM))
+				for k, e := range a.FM {
+					parts[k] = "(" + CoqStr(e.Key) + ", " + e.Body.Coq() + ")"
+				}
+				args[j] = "AFM " + CoqList(parts)
+			} else if a.Body != nil {
 				args[j] = fmt.Sprintf("AF %d (%s)", a.N, a.Body.Coq())
 			} else {
 				args[j] = "AV (" + a.V.c07CoqVal() + ")"
@@ -1613,14 +1652,27 @@ func c07Corpus() []*C07Case {
 			s("replace", c07Fn(1, &c07CExp{K: "map", MK: []string{"a"}, L: []*c07CExp{c07CInt(9)}})),
 			s("put", c07Val(c07TStr("d")), c07Val(c07TInt(4))),
 			s("#observe", c07Val(c07TStr("a")), c07Val(c07TStr("c")), c07Val(c07TStr("d")))),
+		mk(l(1, 2, 3, 4), c07Step{M: "multiUse", Args: []c07Arg{{FM: []c07FMEnt{{Key: "r", Body: &c07CExp{K: "map", MK: []string{"n", "m"},
+			L: []*c07CExp{c07CInt(1), &c07CExp{K: "mapmul", A: c07CArg(0), I: 2}}}}}}}}),
+		mk(c07TList(c07TInt(1), c07TFloat(1)), s("groupByEqual", c07Fn(1, c07CArg(0)))),
+		mk(c07TList(c07TFloat(2), c07TInt(2), c07TInt(3), c07TFloat(3)), s("groupByEqual", c07Fn(1, c07CArg(0)))),
+		mk(c07TList(c07TInt(1), c07TStr("a")), s("groupByEqual", c07Fn(1, c07CArg(0)))),
+		mk(c07TList(c07TList(c07TInt(1)), c07TList(c07TFloat(1))), s("groupByEqual", c07Fn(1, c07CArg(0)))),
 		c07BigReplaceWitness(25, 11), c07BigReplaceWitness(21, 12), c07BigReplaceWitness(20, 11), c07BigReplaceWitness(30, 23),
 	}
 }
 
 // ---------- the run ----------
 
+var c07Timeouts int
+
 func c07Run(c *C07Case, id int, sum *Summary, cw *CaseWriter) {
 	c.c07Finish()
+	if c.Origin == "multiUse" && c07Timeouts >= 2 {
+		// every further miss would cost the 5 s timeout of the copied iterator again
+		sum.Skipped["multiUse case not run after two iterator timeouts"]++
+		return
+	}
 	text, names, vals := c.Program()
 	o := c07RunReal(text, names, vals)
 	sum.Evaluations++
@@ -1669,7 +1721,12 @@ func c07Run(c *C07Case, id int, sum *Summary, cw *CaseWriter) {
 		sum.Sample(human)
 	}
 	cw.Add(c.Coq(id, obs))
-	if what, want := c.c07MapVerdict(o); what != "" {
+	if o.Kind == "fail" && strings.Contains(o.Err, "iterator timed out") {
+		c07Timeouts++
+	}
+	if what, want := c.c07DirectVerdict(o); what != "" {
+		sum.GoViolations = append(sum.GoViolations, GoViolation{CaseID: id, What: what, Sig: sig, Human: human, Expected: want, Observed: shown})
+	} else if what, want := c.c07MapVerdict(o); what != "" {
 		sum.GoViolations = append(sum.GoViolations, GoViolation{CaseID: id, What: what, Sig: sig, Human: human, Expected: want, Observed: shown})
 	} else if what, want := c.c07OracleVerdict(o); what != "" {
 		sum.GoViolations = append(sum.GoViolations, GoViolation{CaseID: id, What: what, Sig: sig, Human: human, Expected: want, Observed: shown})
@@ -1707,7 +1764,7 @@ func cmdC07(seed int64, tier, outDir string) {
 	}
 	r := NewRng(seed)
 	sum := NewSummary("C07", seed, tier)
-	sum.Rule = "pipelines source(.method(args)){0..4} run through value.New().Generate; sources: lists (empty, singleton, duplicates, sorted, reversed, random ints incl. extremes, mixed int/float, nested lists/maps, strings, heterogeneous; eager or behind a lazy map stage), unicode strings, maps, static calls; callbacks from a closed pool with Coq twins; 7% of the steps are misuse on purpose; every 7th case is a sibling/source observation (let w = source.producer; [w.modified..., w, source] with append/set/reverse/+ on lists produced by movingWindow*, combineN, groupByEqual, top, skip, cross, map) every 14th sorts 13..40 items with order/orderRev/orderLess as the last step (judged by the verified sorted-permutation checker alone) and every 7th a map pipeline (literal/put/merge/replace chains up to 12) followed by the observer bundle size, list, isAvail, get, put, string for original, replacement-only and absent keys (call arity, argument type, callback arity, callback failing at an element or returning the wrong type, method of another type). Every case applies at least one built-in; distinct by program text and argument values"
+	sum.Rule = "pipelines source(.method(args)){0..4} run through value.New().Generate; sources: lists (empty, singleton, duplicates, sorted, reversed, random ints incl. extremes, mixed int/float, nested lists/maps, strings, heterogeneous; eager or behind a lazy map stage), unicode strings, maps, static calls; callbacks from a closed pool with Coq twins; 7% of the steps are misuse on purpose; every 7th case is a sibling/source observation (let w = source.producer; [w.modified..., w, source] with append/set/reverse/+ on lists produced by movingWindow*, combineN, groupByEqual, top, skip, cross, map) every 14th is groupByEqual on mixed key pools (ints and floats of equal value, strings, lists, maps, bools, incomparable mixes), every 28th multiUse with functions returning lists, maps holding lazy lists at every position and nestings (also compared with the direct application on the real code), every 14th sorts 13..40 items with order/orderRev/orderLess as the last step (judged by the verified sorted-permutation checker alone) and every 7th a map pipeline (literal/put/merge/replace chains up to 12) followed by the observer bundle size, list, isAvail, get, put, string for original, replacement-only and absent keys (call arity, argument type, callback arity, callback failing at an element or returning the wrong type, method of another type). Every case applies at least one built-in; distinct by program text and argument values"
 	cw := NewCaseWriter(outDir, "From P2 Require Import Base.Prelude Sem.Num Sem.Syntax Sem.Ops Lib.Names Lib.Builtins Run.C07Run.", "c07_case", "c07_id", "c07_im", "c07_is", 300)
 	id := 0
 	if optReplay != "" {
@@ -1735,6 +1792,10 @@ func cmdC07(seed int64, tier, outDir string) {
 			c07Run(r.c07MapObserveCase(), id, sum, cw)
 		case i%14 == 1:
 			c07Run(r.c07LongSortCase(), id, sum, cw)
+		case i%28 == 8:
+			c07Run(r.c07MultiUseCase(), id, sum, cw)
+		case i%14 == 2:
+			c07Run(r.c07GroupEqCase(), id, sum, cw)
 		default:
 			c07Run(r.c07GenCase(), id, sum, cw)
 		}
@@ -2289,6 +2350,157 @@ func (r *Rng) c07LongSortCase() *C07Case {
 	if r.Chance(0.04) {
 		last := &c.Steps[len(c.Steps)-1]
 		last.Args[0] = c07Fn(last.Args[0].N, c07CStr("s")) // fails on every pair
+	}
+	return c
+}
+
+// ---------- multiUse against direct application ----------
+
+// functions for multiUse: each uses its argument exactly once; results are lists, maps holding lazy
+// lists at every position, and nestings of both
+func (r *Rng) c07MultiFn() *c07CExp {
+	lazy := func() *c07CExp {
+		switch r.Pick(6) {
+		case 0:
+			return &c07CExp{K: "mapmul", A: c07CArg(0), I: 2 + r.Pick(3)}
+		case 1:
+			return &c07CExp{K: "topn", A: c07CArg(0), I: 1 + r.Pick(3)} // top(0) never reads its copy of the iterator: multiUse times out (C08 finding in the dependency)
+		case 2:
+			return &c07CExp{K: "skipn", A: c07CArg(0), I: r.Pick(3)}
+		case 3:
+			return &c07CExp{K: "acceptgt", A: c07CArg(0), I: r.Pick(4)}
+		case 4:
+			return &c07CExp{K: "combineadd", A: &c07CExp{K: "skipn", A: c07CArg(0), I: 1}}
+		}
+		return &c07CExp{K: "mapmul", A: &c07CExp{K: "acceptgt", A: c07CArg(0), I: 1}, I: 3}
+	}
+	keys := []string{"n", "m", "k", "z"}
+	mapWith := func(inner *c07CExp, pos, n int) *c07CExp {
+		m := &c07CExp{K: "map"}
+		for i := 0; i < n; i++ {
+			m.MK = append(m.MK, keys[i])
+			if i == pos {
+				m.L = append(m.L, inner)
+			} else {
+				m.L = append(m.L, []*c07CExp{c07CInt(i + 1), c07CStr("k")}[r.Pick(2)])
+			}
+		}
+		return m
+	}
+	switch r.Pick(9) {
+	case 0:
+		return lazy()
+	case 1:
+		return &c07CExp{K: "sum", A: c07CArg(0)}
+	case 2:
+		return &c07CExp{K: "size", A: lazy()}
+	case 3, 4: // a map with a lazy list at any position
+		n := 1 + r.Pick(4)
+		return mapWith(lazy(), r.Pick(n), n)
+	case 5: // nested: map in a map
+		n := 2 + r.Pick(2)
+		return mapWith(mapWith(lazy(), r.Pick(n), n), r.Pick(n), n)
+	case 6: // map in a list
+		n := 2 + r.Pick(2)
+		return &c07CExp{K: "list", L: []*c07CExp{c07CInt(0), mapWith(lazy(), r.Pick(n), n)}}
+	case 7: // list in a list
+		return &c07CExp{K: "list", L: []*c07CExp{lazy(), c07CInt(5)}}
+	}
+	return &c07CExp{K: "reverse", A: c07CArg(0)}
+}
+
+func (r *Rng) c07MultiUseCase() *C07Case {
+	c := &C07Case{Origin: "multiUse"}
+	n := r.Pick(7)
+	c.Src = c07TList()
+	for i := 0; i < n; i++ {
+		c.Src.Items = append(c.Src.Items, c07TInt(r.Pick(9)-2))
+	}
+	if r.Chance(0.4) {
+		c.Src.Repr = "lazy-map"
+	}
+	arg := c07Arg{FM: []c07FMEnt{}}
+	for i := 0; i < 1+r.Pick(3); i++ {
+		arg.FM = append(arg.FM, c07FMEnt{Key: []string{"r", "s", "t"}[i], Body: r.c07MultiFn()})
+	}
+	c.Steps = []c07Step{{M: "multiUse", Args: []c07Arg{arg}}}
+	return c
+}
+
+// the same functions applied directly: let a=v0; {k: body, ...}
+func (c *C07Case) c07DirectVerdict(o c07Obs) (string, string) {
+	if len(c.Steps) != 1 || c.Steps[0].M != "multiUse" || len(c.Steps[0].Args) != 1 || len(c.Steps[0].Args[0].FM) == 0 || c.Src == nil {
+		return "", ""
+	}
+	parts := []string{}
+	for _, e := range c.Steps[0].Args[0].FM {
+		parts = append(parts, e.Key+":"+e.Body.Text(true))
+	}
+	d := c07RunReal("let a=v0; {"+strings.Join(parts, ",")+"}", []string{"v0"}, []value.Value{c.Src.Build()})
+	if d.Kind == "unrepresentable" || o.Kind == "unrepresentable" {
+		return "", ""
+	}
+	if d.Kind != o.Kind {
+		return "multiUse reported " + o.Kind + " (" + o.Err + "), the direct application of the same functions " + d.Kind, d.Kind + " " + d.Coq
+	}
+	if d.Kind == "ok" && d.Coq != o.Coq {
+		return "multiUse and the direct application of the same functions give different values", d.Coq
+	}
+	return "", ""
+}
+
+// ---------- groupByEqual on mixed key pools: the group relation is exactly = ----------
+
+func (r *Rng) c07GroupEqCase() *C07Case {
+	c := &C07Case{Origin: "group-equal"}
+	num := func() *Tree {
+		v := r.Pick(4)
+		if r.Chance(0.5) {
+			return c07TFloat(float64(v))
+		}
+		if r.Chance(0.15) {
+			return c07TFloat(float64(v) + 0.5)
+		}
+		return c07TInt(v)
+	}
+	pools := map[string]func() *Tree{
+		"numbers": num,
+		"strings": func() *Tree { return c07TStr([]string{"a", "b", "1", ""}[r.Pick(4)]) },
+		"lists":   func() *Tree { return c07TList(num()) },
+		"maps":    func() *Tree { return c07TMap([]string{"k"}, num()) },
+		"bools":   func() *Tree { return &Tree{Kind: "bool", B: r.Chance(0.5)} },
+		"pairs":   func() *Tree { return c07TList(num(), c07TStr([]string{"a", "b"}[r.Pick(2)])) },
+	}
+	names := sortedKeys(pools)
+	kind := names[r.Pick(len(names))]
+	if r.Chance(0.35) {
+		kind = "numbers"
+	}
+	mixed := r.Chance(0.25) // incomparable mix: an error is expected exactly when = fails on a compared pair
+	n := 2 + r.Pick(6)
+	c.Src = c07TList()
+	for i := 0; i < n; i++ {
+		k := kind
+		if mixed && r.Chance(0.35) {
+			k = names[r.Pick(len(names))]
+		}
+		c.Src.Items = append(c.Src.Items, pools[k]())
+	}
+	if r.Chance(0.3) {
+		c.Src.Repr = "lazy-map"
+	}
+	var key *c07CExp = c07CArg(0)
+	switch r.Pick(5) {
+	case 0:
+		key = &c07CExp{K: "list", L: []*c07CExp{c07CArg(0)}}
+	case 1:
+		if kind == "numbers" && !mixed {
+			key = c07COp("/", c07CArg(0), c07CInt(1)) // always a float, next to ints in the other cases
+		}
+	}
+	c.Steps = []c07Step{c07Step1("groupByEqual", c07Fn(1, key))}
+	if r.Chance(0.2) {
+		c.Steps = append(c.Steps, c07Step1("size"))
 	}
 	return c
 }
